@@ -44,8 +44,11 @@ const afterHangBound = 1 * time.Second
 
 // maxHungScenarios: a child that has seen this many scenarios with a hanging call skips the
 // rest of its batch (an implementation that hangs everywhere would otherwise cost one bound
-// per call); skipped scenarios are reported as such and never count as passed.
-const maxHungScenarios = 2
+// per call).  The parent then runs the hung scenario once more, alone in a fresh process: a
+// hang is reported only when it shows again (a time-out is never trusted on one sample); when
+// it does not, the second result counts and the skipped rest of the batch is executed.
+// Skipped scenarios are reported as such and never count as passed.
+const maxHungScenarios = 1
 
 // scnBound is the watchdog of one whole scenario inside the child.
 const scnBound = 180 * time.Second
@@ -71,6 +74,8 @@ type scnResult struct {
 	Crash string // non-empty: the child died or hung while running this scenario
 	Skip  bool   // not executed: the child had met maxHungScenarios hanging scenarios before
 }
+
+func (r scnResult) hung() bool { return (r.S != nil && r.S.Hung) || (r.X != nil && r.X.Hung) }
 
 // maxPayload reads maxPayloadSize from the sources the harness was built against.
 func maxPayload(repo string) int {
@@ -191,77 +196,120 @@ func runChunk(c *hx.Ctx, tag string, scns []scenario, res []scnResult) {
 	}
 	start := 0
 	for round := 0; start < len(scns); round++ {
-		outf := filepath.Join(dir, fmt.Sprintf("obs_%d.jsonl", round))
-		cmd := exec.Command(os.Args[0], "-out", filepath.Join(dir, "child"), "-seed", fmt.Sprint(c.Seed), "-tier", c.Tier, "-repo", c.Repo, "exec")
-		cmd.Env = append(os.Environ(), fmt.Sprintf("VERIF_MUX_EXEC=%s|%s|%d", in, outf, start))
-		var stderr bytes.Buffer
-		cmd.Stderr = &stderr
-		cmd.Stdout = &stderr
-		if err := cmd.Start(); err != nil {
-			c.HarnessError("start child: %v", err)
+		next, ok := runChild(c, dir, in, filepath.Join(dir, fmt.Sprintf("obs_%d.jsonl", round)), len(scns), start, res)
+		if !ok {
 			return
 		}
-		waitErr := make(chan error, 1)
-		go func() { waitErr <- cmd.Wait() }()
-		var werr error
-		select {
-		case werr = <-waitErr:
-		case <-time.After(time.Duration(len(scns)-start)*scnBound + time.Minute):
-			cmd.Process.Kill()
-			werr = fmt.Errorf("child killed by the parent's time-out")
-			<-waitErr
-		}
-		errText := stderr.String()
-		if strings.Contains(errText, "DATA RACE") {
-			raceMu.Lock()
-			fmt.Fprintln(os.Stderr, errText)
-			raceMu.Unlock()
-			c.HarnessError("the race detector reported a data race in a child process (see above)")
-		}
-		begun, last := -1, start-1
-		if f, err := os.Open(outf); err == nil {
-			sc := bufio.NewScanner(f)
-			sc.Buffer(make([]byte, 1<<20), 1<<30)
-			for sc.Scan() {
-				var l obsLine
-				if json.Unmarshal(sc.Bytes(), &l) != nil || l.I < 0 || l.I >= len(scns) {
-					continue
-				}
-				switch {
-				case l.Begin:
-					begun = l.I
-				case l.Hang:
-					// handled below as a crash of scenario l.I
-				case l.Skip:
-					res[l.I] = scnResult{Skip: true}
-					last = l.I
-				default:
-					res[l.I] = scnResult{X: l.X, S: l.S}
-					last = l.I
-				}
+		h := -1
+		for i := start; i < next && i < len(scns); i++ {
+			if res[i].hung() {
+				h = i
+				break
 			}
-			f.Close()
 		}
-		if werr == nil && last == len(scns)-1 {
+		if h < 0 {
+			start = next
+			continue
+		}
+		// a time-out: run this scenario again, alone
+		again := filepath.Join(dir, fmt.Sprintf("again_%d.json", round))
+		js, err := json.Marshal([]scenario{scns[h]})
+		if err == nil {
+			err = os.WriteFile(again, js, 0o644)
+		}
+		if err != nil {
+			c.HarnessError("write %s: %v", again, err)
 			return
 		}
-		// the child died: the scenario that had begun and has no result is the culprit
-		bad := last + 1
-		if begun > last {
-			bad = begun
-		}
-		if bad >= len(scns) {
-			c.HarnessError("child failed after the last scenario: %v\n%s", werr, tail(errText, 2000))
+		one := make([]scnResult, 1)
+		if _, ok := runChild(c, dir, again, filepath.Join(dir, fmt.Sprintf("again_obs_%d.jsonl", round)), 1, 0, one); !ok {
 			return
 		}
-		if begun < bad {
-			// died before starting a scenario: machinery problem, not an observation
-			c.HarnessError("child failed before scenario %d started: %v\n%s", bad, werr, tail(errText, 2000))
-			return
+		if one[0].Crash != "" || one[0].hung() {
+			if one[0].Crash != "" {
+				res[h] = one[0]
+			}
+			c.Count("hangs_confirmed_by_a_second_run_in_isolation", 1)
+			return // the rest of the batch stays skipped
 		}
-		res[bad] = scnResult{Crash: fmt.Sprintf("%v: %s", werr, tail(errText, 3000))}
-		start = bad + 1
+		c.Count("hangs_not_reproduced_in_isolation", 1)
+		res[h] = one[0]
+		start = h + 1
 	}
+}
+
+// runChild executes scenarios start.. of the file in (n scenarios) in one child process and stores
+// their results; it returns the index from which a further child has to continue (n when done).
+func runChild(c *hx.Ctx, dir, in, outf string, n, start int, res []scnResult) (int, bool) {
+	cmd := exec.Command(os.Args[0], "-out", filepath.Join(dir, "child"), "-seed", fmt.Sprint(c.Seed), "-tier", c.Tier, "-repo", c.Repo, "exec")
+	cmd.Env = append(os.Environ(), fmt.Sprintf("VERIF_MUX_EXEC=%s|%s|%d", in, outf, start))
+	var stderr bytes.Buffer
+	cmd.Stderr = &stderr
+	cmd.Stdout = &stderr
+	if err := cmd.Start(); err != nil {
+		c.HarnessError("start child: %v", err)
+		return 0, false
+	}
+	waitErr := make(chan error, 1)
+	go func() { waitErr <- cmd.Wait() }()
+	var werr error
+	select {
+	case werr = <-waitErr:
+	case <-time.After(time.Duration(n-start)*scnBound + time.Minute):
+		cmd.Process.Kill()
+		werr = fmt.Errorf("child killed by the parent's time-out")
+		<-waitErr
+	}
+	errText := stderr.String()
+	if strings.Contains(errText, "DATA RACE") {
+		raceMu.Lock()
+		fmt.Fprintln(os.Stderr, errText)
+		raceMu.Unlock()
+		c.HarnessError("the race detector reported a data race in a child process (see above)")
+	}
+	begun, last := -1, start-1
+	if f, err := os.Open(outf); err == nil {
+		sc := bufio.NewScanner(f)
+		sc.Buffer(make([]byte, 1<<20), 1<<30)
+		for sc.Scan() {
+			var l obsLine
+			if json.Unmarshal(sc.Bytes(), &l) != nil || l.I < 0 || l.I >= n {
+				continue
+			}
+			switch {
+			case l.Begin:
+				begun = l.I
+			case l.Hang:
+				// handled below as a crash of scenario l.I
+			case l.Skip:
+				res[l.I] = scnResult{Skip: true}
+				last = l.I
+			default:
+				res[l.I] = scnResult{X: l.X, S: l.S}
+				last = l.I
+			}
+		}
+		f.Close()
+	}
+	if werr == nil && last == n-1 {
+		return n, true
+	}
+	// the child died: the scenario that had begun and has no result is the culprit
+	bad := last + 1
+	if begun > last {
+		bad = begun
+	}
+	if bad >= n {
+		c.HarnessError("child failed after the last scenario: %v\n%s", werr, tail(errText, 2000))
+		return 0, false
+	}
+	if begun < bad {
+		// died before starting a scenario: machinery problem, not an observation
+		c.HarnessError("child failed before scenario %d started: %v\n%s", bad, werr, tail(errText, 2000))
+		return 0, false
+	}
+	res[bad] = scnResult{Crash: fmt.Sprintf("%v: %s", werr, tail(errText, 3000))}
+	return bad + 1, true
 }
 
 func tail(s string, n int) string {
